@@ -4,10 +4,26 @@
 //! one forged frame (or packet number) whose field under test carries a value from
 //! `{0, 1, state-relative boundary ± 1, 2^8, 2^12, 2^16, 2^20, 2^22, 2^31 ± 1, 2^62 − 1}`.
 //! Every forged frame is written byte by byte from RFC 9000 §19 (`wire.rs`), decoded by the library's own
-//! `FrameReader` and handed to the handlers in the order the connection's frame dispatcher uses.
+//! `FrameReader` and handed to the handlers in the order the connection's frame dispatcher uses
+//! (`journal.rs`: ACK and packet numbers, `cid.rs`: connection ids, `stream.rs`: streams, flow control, CRYPTO).
 //!
-//! Two oracles: work (allocation counter and thread CPU time along a value ladder) and error (a table
-//! written from RFC 9000 §19–§20). See `REPORT` in the crate's final notes / DESIGN §5 C04.
+//! Work oracle. The forged call is metered per handler: bytes allocated (exact, per thread) and thread CPU
+//! time. When the field under test carries an absolute value of at least 2^8 the whole ladder
+//! 2^8, 2^12, 2^16, 2^20, 2^22 is climbed with every other field and the history unchanged (fresh, identical
+//! state for each step). A handler violates `work-mem` when it allocates at least 1 MiB, more than
+//! `256·(frame bytes + state entries) + 64 KiB`, and at least 64 times what it allocated at 2^8; the ladder
+//! stops there. `work-cpu` is judged at the top of the ladder only: at least 2 ms, more than
+//! `1 µs·(frame bytes + state entries) + 0.5 ms`, at least 64 times the cost at 2^8, taking the minimum of three
+//! to eight runs (CPU time is only ever inflated). Values above 2^22 are sent only if no handler of the chain was
+//! flagged and none panicked on the ladder. A probe that uses 5 s of CPU (or blocks for 30 s) is given up:
+//! `work-cpu:<handler>:<field>:timeout`. A panic inside a handler is `panic:<handler>:<field>`.
+//!
+//! Error oracle. `Expect` is computed from a reference model of the state (RFC 9000 §4, §5.1, §13.1, §19) and
+//! lists every error kind the RFC allows for the frame; every rule a frame breaks contributes its kinds. A legal
+//! frame that is rejected is only counted (`probe.legal_rejected.*`).
+//!
+//! Only the field under test may make a frame illegal or large: the other fields are drawn from small legal
+//! values and clamped to legality against the state when the frame is built.
 pub mod cid;
 pub mod journal;
 pub mod meter;
@@ -834,28 +850,23 @@ impl Engine for ByzSim {
             }
             _ => {}
         }
-        // smaller value of the field under test (still on the ladder)
+        // the work verdict does not depend on the drawn value once it is on the ladder: the smallest ladder value
         if let Some(val) = case.forged.get(case.field) {
-            if let Base::Pow2(k) = val.base {
-                if let Some(pos) = LADDER.iter().position(|x| *x == k) {
-                    if pos > 0 {
-                        let mut f = case.forged.clone();
-                        if let Some(s) = f.slot(case.field) {
-                            *s = Val::pow(LADDER[pos - 1]);
-                        }
-                        v.push(Case { forged: f, ..case.clone() });
-                    }
-                } else if k > 22 {
-                    let mut f = case.forged.clone();
-                    if let Some(s) = f.slot(case.field) {
-                        *s = Val::pow(22);
-                    }
-                    v.push(Case { forged: f, ..case.clone() });
-                }
-            } else if val.base == Base::Max62 {
+            let small = match (case.field, val.base) {
+                (Field::Jump, Base::Expected) if val.off > 256 => Some(Val::rel(Base::Expected, 256)),
+                (_, Base::Pow2(k)) if k > 8 => Some(Val::pow(8)),
+                (_, Base::Max62) => Some(Val::pow(8)),
+                _ => None,
+            };
+            if let Some(nv) = small {
                 let mut f = case.forged.clone();
                 if let Some(s) = f.slot(case.field) {
-                    *s = Val::pow(22);
+                    *s = nv;
+                }
+                if let (Forged::NewCid { seq, rpt }, Field::Rpt) = (&mut f, case.field) {
+                    if *seq == val {
+                        *seq = *rpt;
+                    }
                 }
                 v.push(Case { forged: f, ..case.clone() });
             }
@@ -957,7 +968,7 @@ pub fn generate(seed: u64) -> Case {
         *forged.slot(field).expect("field exists") = v;
         // a range field can only carry a large value without leaving the packet number space when Largest
         // Acknowledged is large too: both shapes are wanted (work in the first, error handling in the second)
-        if matches!(field, Field::FirstRange | Field::Gap(_) | Field::Range(_)) && v.static_magnitude() >= 256 && !f.one_in(4) {
+        if matches!(field, Field::FirstRange | Field::Gap(_) | Field::Range(_)) && v.static_magnitude() >= 256 && !f.one_in(3) {
             if let Forged::Ack { largest, first_range, .. } = &mut forged {
                 *largest = if f.one_in(2) { Val::max() } else { Val::pow(40) };
                 // exactly one field carries a large value: a first range anchored to a huge Largest would be a second one
@@ -968,7 +979,7 @@ pub fn generate(seed: u64) -> Case {
         }
         return Case { seed, hist: Hist::Journal(hist), forged, field };
     }
-    if target < 36 {
+    if target < 32 {
         // packet number jump
         let hist = journal::gen_hist(&mut r, n, false);
         let v = match f.below(10) {
